@@ -112,6 +112,18 @@ except Exception as _e:
     KALL = None
     TRANSLATE_ERRORS.append(('all formulas in one workbook', f'{type(_e).__name__}: {_e}'))
 
+# DATE written with literal arguments only (nothing for an override to reach): (year, month, day) -> formula cell
+LITERALS = [(99, 12, 31), (120, 5, 3), (1, 1, 1), (1899, 12, 31), (1900, 1, 1), (2024, 2, 29), (2023, 2, 29), (2024, 14, 35), (2024, 0, 0), (0, 1, 1), (9999, 12, 31), (1900, 2, 29)]
+LITCELLS = {}
+for _i, (_y, _m, _d) in enumerate(LITERALS):
+    LITCELLS[f'H{2 * _i + 1}'] = f'=DATE({_y},{_m},{_d})'
+    LITCELLS[f'H{2 * _i + 2}'] = f'=YEAR(DATE({_y},{_m},{_d}))*10000+MONTH(DATE({_y},{_m},{_d}))*100+DAY(DATE({_y},{_m},{_d}))'
+try:
+    KLIT = build.load_class(build.translate_formulas(LITCELLS, CONSTS), '_klit')
+except Exception as _e:
+    KLIT = None
+    TRANSLATE_ERRORS.append(('DATE with literal arguments workbook', f'{type(_e).__name__}: {_e}'))
+
 def ev(cell, **ov):
     args = [{'uid': build.uid(0, a), 'value': v} for a, v in ov.items()]
     return (KALL or K[cell])(args).exec_function_in(build.uid(0, cell))
@@ -196,6 +208,19 @@ def run(report, tier, seed):
         got = ev('F1', A1=2024, B1=m, C1=d)
         return got.toordinal() == ref_date_ord(2024, m, d)
     ''', encodes=fenc, requires="'F1' in K", timeout=T * 2)
+    s.add('f_date_all_literal_arguments', 'x: int', 'True', '''
+        inst = KLIT([{'uid': build.uid(0, 'A1'), 'value': x}])
+        for i, (y, m, d) in enumerate(LITERALS):
+            yy = y + 1900 if 0 <= y <= 1899 else y
+            o = ref_date_ord(yy, m, d)
+            got = inst.exec_function_in(build.uid(0, f'H{2 * i + 1}'))
+            if not (is_midnight(got) and got.toordinal() == o):
+                return False
+            ref = datetime.date.fromordinal(o)
+            if inst.exec_function_in(build.uid(0, f'H{2 * i + 2}')) != ref.year * 10000 + ref.month * 100 + ref.day:
+                return False
+        return True
+    ''', encodes=fenc, requires='KLIT is not None', note='concrete: the arguments are literals of the formula text (12 triples incl. two-/three-digit years, overflowing month/day)')
     for cell, exp in (('F2', '2023'), ('F3', 'm'), ('F4', 'd')):
         s.add(f'f_ymd_of_date_{cell}', 'm: int, d: int', '1 <= m <= 12 and 1 <= d <= dim(2023, m)', f'''
             return ev('{cell}', A1=2023, B1=m, C1=d) == {exp}
